@@ -1,0 +1,46 @@
+// Copyright 2009 Intel Corporation
+// SPDX-License-Identifier: Apache-2.0
+
+#pragma once
+
+// Named scheduling points for verification harnesses. They compile to nothing
+// unless RKCOMMON_VERIF is defined; with it, a harness can install a callback
+// that is invoked whenever a thread passes a point (e.g. to hold that thread
+// until some event of another thread), which makes rare interleavings
+// reproducible. The points never change the program's own logic.
+
+#ifdef RKCOMMON_VERIF
+
+#include <atomic>
+
+namespace rkcommon {
+  namespace tasking {
+    namespace verif {
+
+      using hook_fn = void (*)(const char *point, const void *object);
+
+      inline std::atomic<hook_fn> &hook()
+      {
+        static std::atomic<hook_fn> h{nullptr};
+        return h;
+      }
+
+      inline void sched_point(const char *point, const void *object)
+      {
+        hook_fn f = hook().load();
+        if (f)
+          f(point, object);
+      }
+
+    }  // namespace verif
+  }    // namespace tasking
+}  // namespace rkcommon
+
+#define RKCOMMON_VERIF_POINT(name, obj) \
+  ::rkcommon::tasking::verif::sched_point(name, obj)
+
+#else
+
+#define RKCOMMON_VERIF_POINT(name, obj) ((void)0)
+
+#endif
